@@ -367,6 +367,16 @@ class Model:
             if rhs.replace(' ', '') == '"("+%s+")"' % nm:
                 st[nm] = True
                 return None
+            # the same through a one-line helper: `code = addParentheses(code)` with `addParentheses(x) { return "(" + x + ")"; }`
+            r_ = s['c'][1]
+            while r_.get('k') in ('Paren', 'Cast', 'Construct', 'Temp', 'Bind') and len(r_.get('c', [])) == 1:
+                r_ = r_['c'][0]
+            if r_.get('k') == 'Call' and not r_.get('opc'):
+                from engines import predicate_body, subst_names
+                pb = predicate_body(self.F, r_)
+                if pb is not None and subst_names(render(pb[1]), pb[2]).replace(' ', '') == '"("+%s+")"' % nm:
+                    st[nm] = True
+                    return None
             raise AnalysisBroken('%s: unexpected assignment `%s`' % (f.name, render(s)[:60]))
         if k in ('DeclStmt', 'Null'):
             return None
